@@ -10,7 +10,7 @@ from typing import Dict, List, Optional, Set, Tuple
 from ..core import effrules
 from ..core.absval import AV, UNKNOWN, Domain, KindInterp, Outcome
 from ..core.grammar import grammar
-from ..core.model import AnchorMissing, Repo, class_methods, dotted, strip_cast
+from ..core.model import AnchorMissing, Repo, class_methods, class_methods_n, dotted, strip_cast
 from ..core.report import Run
 
 LEVEL = "proof"
@@ -157,49 +157,44 @@ def check(repo: Repo, run: Run) -> None:
         fn = meths.get(mname)
         if fn is None:
             raise AnchorMissing(f"Evaluator.{mname}")
-        ok, why = operands_from_children(fn, opkey)
+        ok, why = operands_from_children(class_methods_n(cls)[mname], opkey)
         run.ob("C02.T2", f"Evaluator.{mname}|operands", ok, why, ev.loc(fn))
 
     # T3 -----------------------------------------------------------------
     fn = meths.get("expr")
     if fn is None:
         raise AnchorMissing("Evaluator.expr")
-    ok, why = lazy_conditional(fn)
-    run.ob("C02.T3", "Evaluator.expr|lazy", ok, why, ev.loc(fn))
+    ok, why = lazy_conditional(fn, ev, cls)
+    if ok is None:
+        run.inconclusive("C02.T3", "Evaluator.expr|lazy", why)
+    else:
+        run.ob("C02.T3", "Evaluator.expr|lazy", ok, why, ev.loc(fn))
     ok, why = compiled_conditional(repo)
     run.ob("C02.T3", "Phase1Transpiler.expr|result-wrapped", ok, why, str(ev.path))
 
     # T4 -----------------------------------------------------------------
     n4 = 0
-    for where, macro, red, init in fold_sites(repo):
+    for where, macro, found in fold_sites(repo):
         n4 += 1
-        mod_q = where
         want_fn = {"all": "logical_and", "exists": "logical_or"}[macro]
         want_init = {"all": "True", "exists": "False"}[macro]
-        names = {(dotted(x) or "").split(".")[-1] for x in ast.walk(red) if isinstance(x, (ast.Name, ast.Attribute))}
-        if isinstance(strip_cast(red), ast.Name):
-            # a local name: look through its assignment(s) in the enclosing function
-            encl = ev.func(mod_q)
-            for a in ast.walk(encl):
-                if isinstance(a, ast.Assign) and any(isinstance(t, ast.Name) and t.id == strip_cast(red).id for t in a.targets):
-                    names |= {(dotted(x) or "").split(".")[-1] for x in ast.walk(a.value) if isinstance(x, (ast.Name, ast.Attribute))}
-        eng = effrules.interp_analysis(repo)["engine"]
-        if not mod_q.startswith("Evaluator."):
-            eng.run_fn("evaluation", mod_q)
-        label = f"evaluation.{mod_q}"
-        call_line = [c.lineno for c in ast.walk(ev.func(mod_q)) if isinstance(c, ast.Call) and c.args and c.args[0] is red]
-        site = (label, call_line[0]) if call_line else None
-        if site not in eng.reduce_sites:
-            run.inconclusive("C02.T4", f"{mod_q}[{macro}]", "the fold call was not reached by the effect analysis")
+        if found is None:
+            run.inconclusive("C02.T4", f"{where}[{macro}]", "no fold (reduce(f, items, init) or `acc = f(acc, item)` loop) was recognised in this implementation")
             continue
-        effs = sorted(eng.reduce_sites[site])
+        red, init, site_node = found
+        names = {(dotted(x) or "").split(".")[-1] for x in ast.walk(red) if isinstance(x, (ast.Name, ast.Attribute))}
+        free = [x.id for x in ast.walk(red) if isinstance(x, ast.Name) and not (ev.has(x.id) or x.id in ("celpy", "TypeError", "ValueError", "cast") or hasattr(__import__("builtins"), x.id))]
+        effs = effrules.closed_callable_effects(repo, "evaluation", red) if not free else None
+        if effs is None:
+            run.inconclusive("C02.T4", f"{where}[{macro}]|reducer", f"the reducer `{ast.unparse(red)[:70]}` could not be resolved to a callable" + (f" (free names {free})" if free else ""))
+        else:
+            run.ob("C02.T4", f"{where}[{macro}]|reducer", want_fn in names and not effs,
+                   f"{macro} in {where} folds with `{ast.unparse(red)[:70]}`: "
+                   + ("absorbing" if (want_fn in names and not effs) else (f"can raise {sorted(effs)}" if effs else f"is not built on {want_fn}")),
+                   ev.loc(site_node))
         init_txt = ast.unparse(strip_cast(init)) if init is not None else "?"
-        run.ob("C02.T4", f"{mod_q}[{macro}]|reducer", want_fn in names and not effs,
-               f"{macro} in {mod_q} folds with `{ast.unparse(strip_cast(red))[:70]}`: "
-               + ("absorbing" if (want_fn in names and not effs) else (f"can raise {sorted(effs)}" if effs else f"is not built on {want_fn}")),
-               ev.loc(red))
-        run.ob("C02.T4", f"{mod_q}[{macro}]|neutral", init_txt.endswith(f"BoolType({want_init})"),
-               f"{macro} in {mod_q} starts the fold from {init_txt}; neutral element is BoolType({want_init})", ev.loc(red))
+        run.ob("C02.T4", f"{where}[{macro}]|neutral", init_txt.endswith(f"BoolType({want_init})"),
+               f"{macro} in {where} starts the fold from {init_txt}; neutral element is BoolType({want_init})", ev.loc(site_node))
     run.floor("C02.T4", n4, 4)
 
     # T5 -----------------------------------------------------------------
@@ -267,69 +262,60 @@ def operands_from_children(fn: ast.FunctionDef, opkey: str) -> Tuple[bool, str]:
     return False, "no `left, right = self.visit_children(tree)` found"
 
 
-def lazy_conditional(fn: ast.FunctionDef) -> Tuple[bool, str]:
-    """Path rule: in the 3-children branch no path visits both children[1] and children[2];
-    the choice is made by the truth of the visited condition."""
+def lazy_conditional(fn: ast.FunctionDef, mod=None, cls=None) -> Tuple[Optional[bool], str]:
+    """Path rule on Evaluator.expr: no path visits both children[1] and children[2]; a path visits children[1]
+    only under the truth of the visited condition (children[0]) and children[2] only under its falsity; all
+    children are visited together only in the one-child form.  Paths are enumerated with locals substituted
+    (`a, b, c = tree.children`, `n = len(tree.children)`) and private helpers expanded."""
+    from ..core.paths import PathWalker, flat_conds
 
-    def visited(nodes) -> Set[int]:
-        out = set()
-        for st in nodes:
-            for c in ast.walk(st):
-                if isinstance(c, ast.Call) and dotted(c.func) in ("self.visit", "self.visit_children"):
-                    arg = strip_cast(c.args[0]) if c.args else None
-                    if isinstance(arg, ast.Subscript) and isinstance(arg.value, ast.Attribute) and arg.value.attr == "children":
-                        try:
-                            out.add(ast.literal_eval(arg.slice))
-                        except Exception:  # noqa: BLE001
-                            out.add(-1)
-                    elif isinstance(arg, ast.Name) and arg.id == "tree" and dotted(c.func) == "self.visit_children":
-                        out.add(-2)  # all children
-        return out
+    tree = fn.args.args[1].arg if len(fn.args.args) > 1 else "tree"
 
-    cond_name = None
-    for n in ast.walk(fn):
-        if isinstance(n, ast.Assign) and isinstance(n.targets[0], ast.Name):
-            v = strip_cast(n.value)
-            if isinstance(v, ast.Call) and dotted(v.func) == "self.visit" and 0 in visited([n]):
-                cond_name = n.targets[0].id
-    if cond_name is None:
-        return False, "the condition (children[0]) is not visited into a variable"
-    # find the branch handling three children
-    three = None
-    for n in ast.walk(fn):
-        if isinstance(n, ast.If):
-            t = ast.unparse(n.test)
-            if "len(tree.children) == 3" in t:
-                three = n.body
-    if three is None:
-        return False, "no branch for the three-children form"
-    if -2 in visited(three):
-        return False, "the three-children branch visits all children (both branches are evaluated)"
-    for n in ast.walk(ast.Module(body=three, type_ignores=[])):
-        if isinstance(n, ast.If):
-            t = strip_cast(n.test)
-            neg = False
-            if isinstance(t, ast.UnaryOp) and isinstance(t.op, ast.Not):
-                t, neg = strip_cast(t.operand), True
-            if isinstance(t, ast.Name) and t.id == cond_name:
-                a, b = visited(n.body), visited(n.orelse)
-                if neg:
-                    a, b = b, a
-                rest = visited([s for s in three if s is not n and not (isinstance(s, ast.Try) and n in ast.walk(s))])
-                others = {i for i in rest if i in (1, 2)}
-                if a == {1} and b == {2} and not (others - set()):
-                    # make sure no visit of 1/2 outside the if
-                    outside = set()
-                    for s in ast.walk(ast.Module(body=three, type_ignores=[])):
-                        if isinstance(s, ast.Call) and dotted(s.func) in ("self.visit", "self.visit_children"):
-                            inside = any(s in ast.walk(x) for x in n.body + n.orelse)
-                            if not inside:
-                                outside |= visited([ast.Expr(value=s)])
-                    if outside & {1, 2}:
-                        return False, f"children {sorted(outside & {1, 2})} are also visited outside the selection"
-                    return True, "exactly one of children[1] / children[2] is visited, selected by the truth of the visited condition"
-                return False, f"true-branch visits children {sorted(a)}, false-branch visits {sorted(b)}; expected [1] and [2]"
-    return False, "no `if <condition value>:` selects between children[1] and children[2]"
+    def child_index(e: ast.expr) -> Optional[int]:
+        e = strip_cast(e)
+        if isinstance(e, ast.Subscript) and ast.unparse(strip_cast(e.value)) == f"{tree}.children":
+            try:
+                return int(ast.literal_eval(e.slice))
+            except Exception:  # noqa: BLE001
+                return None
+        return None
+
+    def is_visit(c: ast.Call) -> Optional[int]:
+        if dotted(c.func) == "self.visit" and c.args:
+            return child_index(c.args[0])
+        return None
+
+    try:
+        paths = PathWalker(mod, cls).paths(fn)
+    except OverflowError:
+        return None, "too many paths"
+    saw = set()
+    for p in paths:
+        idx = [is_visit(c) for c in p.calls]
+        V = {i for i in idx if i is not None}
+        all_children = any(dotted(c.func) == "self.visit_children" and c.args and ast.unparse(strip_cast(c.args[0])) == tree for c in p.calls)
+        conds = flat_conds(p.conds)
+        if all_children:
+            one = any(pol and isinstance(t, ast.Compare) and len(t.ops) == 1 and isinstance(t.ops[0], ast.Eq)
+                      and ast.unparse(strip_cast(t.left)) == f"len({tree}.children)" and ast.unparse(t.comparators[0]) == "1" for t, pol in conds)
+            if not one:
+                return False, "a path visits all children (both branches are evaluated) outside the one-child form"
+            continue
+        if {1, 2} <= V:
+            return False, "one path visits both children[1] and children[2]"
+        for k, want in ((1, True), (2, False)):
+            if k in V:
+                saw.add(k)
+                sel = False
+                for t, pol in conds:
+                    t0 = strip_cast(t)
+                    if isinstance(t0, ast.Call) and is_visit(t0) == 0 and pol == want:
+                        sel = True
+                if not sel:
+                    return False, f"children[{k}] is visited on a path that is not selected by the {'truth' if want else 'falsity'} of the visited condition"
+    if saw != {1, 2}:
+        return None, f"the paths that visit children[1] / children[2] were not found (found {sorted(saw)})"
+    return True, "exactly one of children[1] / children[2] is visited, selected by the truth of the visited condition"
 
 
 def compiled_conditional(repo: Repo) -> Tuple[bool, str]:
@@ -344,28 +330,69 @@ def compiled_conditional(repo: Repo) -> Tuple[bool, str]:
                 "that logical_condition discards" if ok else "a branch of the compiled ?: is not wrapped by result()")
 
 
+def find_fold(fn: ast.AST, stmts):
+    """(reducer expression with locals resolved, initial value, site) of the fold in ``stmts``:
+    ``reduce(f, items, init)`` or ``acc = init; for x in items: acc = f(acc, g(x))``."""
+    from ..core.model import deref
+
+    class _M:  # deref needs a module for module-level names: none wanted here (locals only)
+        tree = ast.Module(body=[], type_ignores=[])
+
+        @staticmethod
+        def has_class(_n):
+            return False
+
+    def resolve(e: ast.expr) -> ast.expr:
+        e = strip_cast(e)
+        if isinstance(e, ast.Name):
+            d = deref(_M, e, None, fn)  # type: ignore[arg-type]
+            return strip_cast(d)
+        return e
+
+    body = ast.Module(body=list(stmts), type_ignores=[])
+    for c in ast.walk(body):
+        if isinstance(c, ast.Call) and dotted(c.func) in ("reduce", "functools.reduce") and len(c.args) >= 2:
+            return resolve(c.args[0]), (resolve(c.args[2]) if len(c.args) > 2 else None), c
+    for loop in ast.walk(body):
+        if isinstance(loop, ast.For) and len(loop.body) == 1 and isinstance(loop.body[0], (ast.Assign, ast.AnnAssign)):
+            a = loop.body[0]
+            tgt = a.targets[0] if isinstance(a, ast.Assign) else a.target
+            v = strip_cast(a.value) if a.value is not None else None
+            if isinstance(tgt, ast.Name) and isinstance(v, ast.Call) and len(v.args) == 2 and isinstance(strip_cast(v.args[0]), ast.Name) and strip_cast(v.args[0]).id == tgt.id:
+                # the value the accumulator holds when the loop starts: its last assignment before the loop
+                init = None
+                for st in ast.walk(body):
+                    if isinstance(st, (ast.Assign, ast.AnnAssign)) and st is not a and st.value is not None and getattr(st, "lineno", 0) <= loop.lineno:
+                        t2 = st.targets[0] if isinstance(st, ast.Assign) else st.target
+                        if isinstance(t2, ast.Name) and t2.id == tgt.id:
+                            init = st.value
+                return resolve(v.func), (resolve(init) if init is not None else None), loop
+    return None
+
+
 def fold_sites(repo: Repo):
-    """(function qualname, macro, reducer expr, init expr) for every all/exists implementation."""
+    """(function qualname, macro, fold or None) for every all/exists implementation; helpers expanded in place."""
     ev = repo.mod("evaluation")
     out = []
     # interpreter: branches of member_dot_arg
-    fn = ev.func("Evaluator.member_dot_arg")
+    fn = ev.func_n("Evaluator.member_dot_arg")
+    seen = set()
     for n in ast.walk(fn):
         if isinstance(n, ast.If):
             t = n.test
             if isinstance(t, ast.Compare) and isinstance(t.ops[0], ast.Eq) and isinstance(t.comparators[0], ast.Constant):
                 macro = t.comparators[0].value
-                if macro in ("all", "exists") and ast.unparse(t.left).endswith(".value"):
-                    for c in ast.walk(ast.Module(body=n.body, type_ignores=[])):
-                        if isinstance(c, ast.Call) and dotted(c.func) in ("reduce", "functools.reduce") and len(c.args) >= 2:
-                            out.append(("Evaluator.member_dot_arg", macro, c.args[0], c.args[2] if len(c.args) > 2 else None))
+                if macro in ("all", "exists") and ast.unparse(t.left).endswith(".value") and macro not in seen:
+                    seen.add(macro)
+                    out.append(("Evaluator.member_dot_arg", macro, find_fold(fn, n.body)))
+    for macro in ("all", "exists"):
+        if macro not in seen:
+            out.append(("Evaluator.member_dot_arg", macro, None))
     # compiled: macro_<name>
     for macro in ("all", "exists"):
         q = f"macro_{macro}"
         if not ev.has(q):
             continue
-        f = ev.func(q)
-        for c in ast.walk(f):
-            if isinstance(c, ast.Call) and dotted(c.func) in ("reduce", "functools.reduce") and len(c.args) >= 2:
-                out.append((q, macro, c.args[0], c.args[2] if len(c.args) > 2 else None))
+        f = ev.func_n(q)
+        out.append((q, macro, find_fold(f, f.body)))
     return out
